@@ -151,4 +151,51 @@ theorem stripEscapes_eq_ref (s : Bytes) : stripEscapes s = stripRef true s := by
   have := stripGo_ref s (s.length + 1) 0 [] 1 (by omega) (by omega)
   simpa [strip_a0, strip_a1, strip_a2] using this
 
+/-- the stripper's state (showing?) after scanning a read -/
+def stripState : Bool → Bytes → Bool
+  | st, [] => st
+  | true, c :: cs => if ANSI_ESCAPE_BEGIN.isPrefixOf (c :: cs) then stripState false cs else stripState true cs
+  | false, c :: cs => if isTerm c then stripState true cs else stripState false cs
+
+/-- the boundary between `a` and `b` does not separate ESC from `[` -/
+def NoStraddle (a b : Bytes) : Prop := ¬ (a.getLast? = some 27 ∧ b.head? = some 91)
+
+theorem esc_prefix_append (c : UInt8) (cs b : Bytes) (h : NoStraddle (c :: cs) b) :
+    ANSI_ESCAPE_BEGIN.isPrefixOf (c :: cs ++ b) = ANSI_ESCAPE_BEGIN.isPrefixOf (c :: cs) := by
+  have he : ANSI_ESCAPE_BEGIN = [27, 91] := by decide
+  rw [he]
+  cases cs with
+  | cons d ds => simp [List.isPrefixOf]
+  | nil =>
+    cases b with
+    | nil => simp [List.isPrefixOf]
+    | cons e es =>
+      simp only [NoStraddle, List.getLast?_singleton, List.head?_cons, Option.some.injEq] at h
+      simp only [List.cons_append, List.nil_append, List.isPrefixOf, Bool.and_true, Bool.and_false]
+      cases h1 : (27 : UInt8) == c <;> cases h2 : (91 : UInt8) == e <;> simp_all
+
+theorem stripRef_append (b : Bytes) : ∀ (a : Bytes) (st : Bool), NoStraddle a b →
+    stripRef st (a ++ b) = stripRef st a ++ stripRef (stripState st a) b := by
+  intro a
+  induction a with
+  | nil => intro st _; cases st <;> simp [stripRef, stripState]
+  | cons c cs ih =>
+    intro st h
+    have htail : NoStraddle cs b := by
+      intro ⟨h1, h2⟩
+      apply h
+      refine ⟨?_, h2⟩
+      cases cs with
+      | nil => simp at h1
+      | cons d ds => simpa [List.getLast?_cons_cons] using h1
+    cases st
+    · simp only [List.cons_append, stripRef, stripState]
+      split <;> exact ih _ htail
+    · have hp := esc_prefix_append c cs b h
+      rw [List.cons_append] at hp
+      simp only [List.cons_append, stripRef, stripState, hp]
+      split
+      · exact ih _ htail
+      · simp [ih _ htail]
+
 end Sv.Strip
